@@ -255,4 +255,28 @@ example : 0 ∈ regWorkers (exS2.cr (exGraph.node 2).cls).droppedSetup (some (ex
     Event.start "net1" "1" "2a1" [("vm1", ":/pool/shared net1:/pool/swarm")] 1 ∈ (resume exGraph exS1 0 exPass 100).2 := by
   decide +kernel
 
+/-! lazy expansion: initially the four parsed nodes are hidden (`H0 = [0, 1, 2, 3]`); net1 reveals its copies (2 and its
+ancestor 0) at the flat node, runs `a`, drops it and starts `b` -/
+
+example : graphWF exLazy = true ∧ (exLazy.node exLazy.root).flat = true ∧ ownerNamesB exLazy = true := by decide
+example : FlatClass exLazy := by decide
+example : ReachH exLazy 4 [] [0, 1, 2, 3] exL2 := reachH_runSched exLazy 4 [] _ 100 _ _ ReachH.init
+
+set_option maxRecDepth 100000 in
+example : exL2.hidden = [1, 3] ∧
+    0 ∈ regWorkers (exL2.cr (exLazy.node 2).cls).droppedSetup (some (exLazy.node 0).cls) ∧
+    (exL2.nd 0).finished = some 0 ∧
+    Event.start "net1" "1" "2a1" [("vm1", ":/pool/shared net1:/pool/swarm")] 1 ∈ (resume exLazy exL1 0 exPass 100).2 := by
+  decide +kernel
+
+set_option maxRecDepth 100000 in
+/-- `OwnerNames` is needed: when a worker's id is a substring of the name of a foreign copy (`net1` in `…net11`), the
+worker traverses the foreign copy and leaves its own mark on it — `finished_means_traversed_by_owner` fails. -/
+theorem owner_names_needed :
+    ownerNamesB exBad = false ∧ graphWF exBad = true ∧ (exBad.node exBad.root).flat = true ∧
+    ReachH exBad 2 [] [] (runSched exBad 100 (initState exBad 2 [] []) [(0, exNoOut), (0, exPass)]) ∧
+    ((runSched exBad 100 (initState exBad 2 [] []) [(0, exNoOut), (0, exPass)]).nd 0).finished = some 0 ∧
+    (exBad.node 0).owner = some 1 :=
+  ⟨by decide, by decide, by decide, reachH_runSched exBad 2 [] [] 100 _ _ ReachH.init, by decide +kernel, by decide⟩
+
 end I2N.Props.C01
